@@ -123,6 +123,9 @@ def gen_operand(rng, live, ncolors, depth=0, allow_boom=False):
             items.insert(rng.randrange(len(items) + 1), {"boom": 1})
         return {"l": items, "tuple": True} if rng.random() < 0.3 else {"l": items}
     if r < 0.96:
+        if rng.random() < 0.3:
+            # values of any type, appended the way print() would show them - also iterable ones
+            return {"obj": rng.choice(["dict", "bytes", "range", "frozenset", "dictview", "empty_dict"])}
         return {"o": rng.choice([0, 42, -7, 3.5, None, True])}
     return {"s": gen_str(rng)}
 
@@ -419,7 +422,12 @@ class World:
         v.fmt = fmt
         return v
 
+    _PLAIN_OBJECTS = {"dict": {"timeout": 30, "tls": True}, "bytes": b"PING", "range": range(8000, 8003),
+                      "frozenset": frozenset(["a"]), "dictview": {"k": 1}.keys(), "empty_dict": {}}
+
     def real_operand(self, o):
+        if "obj" in o:
+            return self._PLAIN_OBJECTS[o["obj"]]
         if "sv" in o:
             return self.shown_value(o)
         if "res" in o:
@@ -446,7 +454,9 @@ class World:
 
     def model_operand(self, o, out):
         """appends cells to `out`; raises BoomHit(cells appended so far) at an injected fault"""
-        if "sv" in o:
+        if "obj" in o:
+            out.extend((ch, sgr.PLAIN) for ch in str(self._PLAIN_OBJECTS[o["obj"]]))
+        elif "sv" in o:
             st = self.styles[o["c"] % len(self.styles)]
             out.extend((ch, st) for ch in o["sv"])
         elif "res" in o:
